@@ -354,20 +354,33 @@ impl ToLatex for IterableKind {
     }
 }
 
+fn join_elements(elements: impl Iterator<Item = String>) -> String {
+    format!("[{}]", elements.collect::<Vec<_>>().join(", "))
+}
+
 impl fmt::Display for IterableKind {
     fn fmt(&self, f: &mut fmt::Formatter<'_>) -> fmt::Result {
         //TODO should i turn this into a self.to_primitive_set()  and then iterate and stringify?
         let s = match self {
-            IterableKind::Numbers(v) => format!("{:?}", v),
+            //the elements are written the way the grammar reads them back: the debug
+            //form of a float may use an exponent, that of a string re-escapes it and
+            //that of a primitive names its variant
+            IterableKind::Numbers(v) => join_elements(v.iter().map(|n| {
+                if n.is_finite() && n.fract() == 0.0 {
+                    format!("{:.1}", n)
+                } else {
+                    n.to_string()
+                }
+            })),
             IterableKind::Integers(v) => format!("{:?}", v),
-            IterableKind::Anys(v) => format!("{:?}", v),
+            IterableKind::Anys(v) => join_elements(v.iter().map(|p| p.to_string())),
             IterableKind::PositiveIntegers(v) => format!("{:?}", v),
-            IterableKind::Strings(v) => format!("{:?}", v),
+            IterableKind::Strings(v) => join_elements(v.iter().map(|s| format!("\"{}\"", s))),
             IterableKind::Edges(v) => format!("{:?}", v),
             IterableKind::Nodes(v) => format!("{:?}", v),
             IterableKind::Tuples(v) => format!("{:?}", v),
             IterableKind::Booleans(v) => format!("{:?}", v),
-            IterableKind::Graphs(v) => format!("{:?}", v),
+            IterableKind::Graphs(v) => join_elements(v.iter().map(|g| g.to_string())),
             IterableKind::Iterables(v) => {
                 let result = v
                     .iter()
